@@ -322,8 +322,9 @@ def forms(ctx, col):
                       f"{cls}: V(a) + V(b) - V(a and b) with the operands in their own order", norm_src(e),
                       f"`{norm_src(e)}` = {got}, expected A + B - I", stmt="union")
         except NotPolynomial as ex:
-            col.bad(R_, d.qualname, d.loc(), f"{cls}: V(a) + V(b) - V(a and b) with the operands in their own order",
-                    f"`{norm_src(e)}` is not A + B - I(obj1, obj2): {ex}", stmt="union")
+            # another way of writing the union (a shared helper, the overlap handed in as a callable ...): not a verdict
+            col.unresolved(R_, d.qualname, d.loc(), f"{cls}: V(a) + V(b) - V(a and b) with the operands in their own order",
+                           f"`{norm_src(e)[:80]}` cannot be read as a polynomial in the two volumes and the overlap: {ex}", stmt="union")
 
 
 # --------------------------------------------------------------------------- two spheres
